@@ -445,7 +445,7 @@ func runWithClient(cl *jrpc2.Client, c *GCase, url string) (obs Obs, seen []Bloc
 	if _, err := ig.Insert(ctx, &mu, fc, blocks); err != nil {
 		return Obs{Outcome: "err", Msg: err.Error()}, seen
 	}
-	obs = Obs{Outcome: "ok", Cols: fc.Cols}
+	obs = Obs{Outcome: "ok", Cols: fc.Cols, Queries: fc.Queries}
 	for _, r := range fc.Rows {
 		row := make([]Cell, len(r))
 		for i := range r {
